@@ -48,7 +48,9 @@ func (w *World) Leaves(v ssa.Value, at ssa.Instruction) []Leaf { return w.leaves
 
 // LeavesErr additionally expands the error result of a transparent helper into the error values of the helper's
 // returns compatible with what is known about that result at the use.
-func (w *World) LeavesErr(v ssa.Value, at ssa.Instruction) []Leaf { return w.leavesX(v, at, true, true) }
+func (w *World) LeavesErr(v ssa.Value, at ssa.Instruction) []Leaf {
+	return w.leavesX(v, at, true, true)
+}
 
 func (w *World) leaves(v ssa.Value, at ssa.Instruction, deep bool) []Leaf {
 	return w.leavesX(v, at, deep, false)
